@@ -32,6 +32,7 @@ func main() {
 	}{
 		{"ResArith", genResArith},
 		{"Consts", genConsts},
+		{"AppFsm", genAppFsm},
 	}
 	for _, g := range gens {
 		if only != "" && only != g.name {
